@@ -88,10 +88,14 @@ def _macro_calls(body, name):
     return res
 
 
-@rule("R1", "drop(V.drain(A..B)); -> vx_drain_drop(&mut V, A, B);   [trusted std contract]")
+@rule("R1", "drop(V.drain(A..B)); / drop(V.drain(A..)); -> vx_drain_drop(&mut V, A, B | V.len());   [trusted std contract]")
 def r1(body):
-    return _sub(r"\bdrop\(\s*([\w\.]+?)\s*\.\s*drain\(\s*([^;]+?)\s*\.\.\s*([^;]+?)\s*\)\s*,?\s*\)\s*;",
-                lambda m: "vx_drain_drop(&mut %s, %s, %s);" % (m.group(1), " ".join(m.group(2).split()), " ".join(m.group(3).split())), body)
+    def rep(m):
+        v, a, b = m.group(1), " ".join(m.group(2).split()), " ".join((m.group(3) or "").split())
+        if not b:
+            return "{ let vx_dl = %s.len(); vx_drain_drop(&mut %s, %s, vx_dl); }" % (v, v, a)
+        return "vx_drain_drop(&mut %s, %s, %s);" % (v, a, b)
+    return _sub(r"\bdrop\(\s*([\w\.]+?)\s*\.\s*drain\(\s*([^;]+?)\s*\.\.\s*([^;]*?)\s*\)\s*,?\s*\)\s*;", rep, body)
 
 
 @rule("R2", "let X = V.drain(A..); W.extend(X.rev()); -> vx_extend_rev_drain_from(&mut W, &mut V, A);   [trusted std contract]")
